@@ -198,9 +198,10 @@ def run(project, chk):
                           message="_format is written from something other than detect_color_format(self.original)")
 
     emitted_fields(project, chk)
-    chk.rule("O5", "the library's own reader of hsl() fields is CSS's: a percentage is divided by 100 whatever its size (0.4% is 0.004), a bare number only in [0, 1] (C07's N5, here as the discharged assumption of 'reads back')")
-    from checks.C07 import hsl_fields_read_as_css
+    chk.rule("O5", "the library's own reader of hsl() fields is CSS's: a percentage is divided by 100 whatever its size (0.4% is 0.004), a bare number only in [0, 1], and the HSL -> RGB core rounds each channel to the nearest 8-bit value (C07's N5, here as the discharged assumption of 'reads back')")
+    from checks.C07 import hsl_fields_read_as_css, hsl_core_is_css
     hsl_fields_read_as_css(project, chk, "O5")
+    hsl_core_is_css(project, chk, "O5")
 
 
 def format_dispatch(project, chk, rule="O1", labels=()):
